@@ -27,6 +27,10 @@ accessor-modify  (E2) on ONE object the data are changed between the reads throu
             Plus copy.deepcopy histories (the copy keeps its own data).
 lookup-modify    (E2) the same for t (value setter, set_at in another unit, units relabel): the lookups follow the
             current times.
+provenance  the accessor oracles (reference = direct indexing of the trajectory's data on the caller's grid) on
+            trajectories from the real producers: simulate_script plain and with a cgmap (identity, lumping, lumping
+            with a dropped cell) on fresh engine builds, save/load round trips and deepcopies of them, and
+            RDTrajectory objects constructed with system != script.system.
 simulated   (small) the same accessor checks on trajectories produced by the Euler engine for a network
             without reactions and without diffusion (every sample equals the initial state).
 
@@ -628,24 +632,24 @@ def _apply_data_mod(tr, kind, rnd, stats):
     return text
 
 
-def _read_all(tr, ns, nsp, nc, space, first, out, stats, note, suffix):
+def _read_all(tr, ns, nsp, nc, space, first, out, stats, note, suffix, prefix="modify-"):
     """first reader (one accessor, all triples), then every accessor in two form combinations; the reference is
     direct indexing of the CURRENT data and its current units (the statement's own formulation)."""
     live = [float(x) for x in tr.data.value]
     if len(live) != ns * nsp * nc:
-        out.append(("C17:modify-data:wrong-length:%s" % suffix, "%sdata has %d entries, expected %d" % (note, len(live), ns * nsp * nc)))
+        out.append(("C17:%sdata:wrong-length:%s" % (prefix, suffix), "%sdata has %d entries, expected %d" % (note, len(live), ns * nsp * nc)))
         return
     qunit = uq.sys_of(tr.data.units)[2]
 
     def valf(k, s, c):
         return live[flat_index(k, s, c, nsp, nc)]
     grid = space[0] == "grid"
-    _check_accessors(tr, ns, nsp, nc, space, qunit, "label", "index", out, stats, prefix="modify-", valf=valf,
+    _check_accessors(tr, ns, nsp, nc, space, qunit, "label", "index", out, stats, prefix=prefix, valf=valf,
                      only_sites=[first], suffix=suffix, note=note + " first reader %s: " % first)
-    _check_accessors(tr, ns, nsp, nc, space, qunit, "index", "index", out, stats, prefix="modify-", valf=valf,
+    _check_accessors(tr, ns, nsp, nc, space, qunit, "index", "index", out, stats, prefix=prefix, valf=valf,
                      suffix=suffix, note=note + " ")
     _check_accessors(tr, ns, nsp, nc, space, qunit, "object", "tuple" if grid else "index", out, stats, rev=True,
-                     prefix="modify-", valf=valf, suffix=suffix, note=note + " ")
+                     prefix=prefix, valf=valf, suffix=suffix, note=note + " ")
 
 
 def _check_accessor_modify(case, out, stats):
@@ -760,6 +764,104 @@ def _check_lookup_modify(case, out, stats):
             hist.append(_apply_t_mod(tr, kind, nmod))
             nmod += 1
 
+
+# ---- trajectory provenance: the same accessor oracles on trajectories from the real producers --------
+
+PRODUCERS = ["plain", "cg-identity", "cg-lump", "cg-lump-drop"]
+CTOR_MISMATCH = ["ctor-mismatch-graph", "ctor-mismatch-transposed"]
+POSTS = ["direct", "save-load-separate", "save-load-inline", "deepcopy"]
+
+
+def _cgmap(producer, n):
+    if producer == "cg-identity":
+        return list(range(n))
+    if producer == "cg-lump":                      # cells 0 and 1 lumped, every other cell alone: n-1 nodes
+        return [0, 0] + list(range(1, n - 1))
+    if producer == "cg-lump-drop":                 # the same with the last cell dropped: n-2 nodes
+        return [0, 0] + list(range(1, n - 2)) + [-1]
+    return None
+
+
+def _provenance_system(w, h, d):
+    from strengths.rdnetwork import Reaction
+    nc = w * h * d
+    net = RDNetwork(species=[Species(LABELS[0], density=0, D=1), Species(LABELS[1], density=0, D=0.5)],
+                    reactions=[Reaction("%s -> %s" % (LABELS[0], LABELS[1]), kf=0.5, kr=0.25)])
+    state = [float(10 * (s * nc + c) + 10) for s in range(2) for c in range(nc)]
+    return RDSystem(net, RDGridSpace(w=w, h=h, d=d), state=state)
+
+
+def _check_provenance(case, out, stats):
+    """a trajectory from a real producer is expressed on the caller's own grid system: data holds
+    nsamples x nspecies x (w*h*d) values; every accessor must agree with direct indexing of that data, cells by
+    linear index and by (x,y,z) coordinates of the caller's grid."""
+    import copy
+    import shutil
+    import tempfile
+    from mc import eng
+    from strengths.rdscript import RDScript
+    from strengths.simulate import simulate_script
+    from strengths.rdoutput import save_rdtrajectory, load_rdtrajectory
+    w, h, d = case["grid"]
+    nc, nsp = w * h * d, 2
+    space = ["grid", w, h, d]
+    producer, post, first = case["producer"], case["post"], case["first"]
+    suffix = "%s:%s" % (producer, post)
+    tsam = [0.0, 0.25, 0.5]
+    system = _provenance_system(w, h, d)
+    stats["transitions"] += 1
+    if producer in CTOR_MISMATCH:
+        # hand-built: the `system` argument is the trajectory's system, the script was written for another one
+        if producer == "ctor-mismatch-graph":
+            other = RDSystem(system.network, _mk_space(["graph", nc - 1]))
+        else:
+            other = RDSystem(system.network, RDGridSpace(w=h, h=w, d=d))
+        script = RDScript(other, t_sample=tsam, time_step=0.125, rng_seed=1)
+        data = [val(k, s, c) for k in range(3) for s in range(nsp) for c in range(nc)]
+        tr = RDTrajectory(UnitArray(data, "molecule"), UnitArray(tsam, "s"), system, script=script)
+        note = "RDTrajectory(data on grid %dx%dx%d, t, system=that grid, script=RDScript(%s))" % (
+            w, h, d, "graph of %d nodes" % (nc - 1) if producer == "ctor-mismatch-graph" else "grid %dx%dx%d" % (h, w, d))
+    else:
+        script = RDScript(system, t_sample=tsam, time_step=0.125, rng_seed=3)
+        cg = _cgmap(producer, nc)
+        note = "simulate_script(script on grid %dx%dx%d, %s engine, cgmap=%r)" % (w, h, d, case["engine"], cg)
+        try:
+            tr = simulate_script(script, eng.make_engine(case["engine"]), cgmap=cg)
+        except Exception as e:
+            # whether the producer accepts the script / map is C16's and C10's business
+            stats["provenance_producer_raised"] += 1
+            return
+    if post in ("save-load-separate", "save-load-inline"):
+        tmp = tempfile.mkdtemp(prefix="c17prov_")
+        try:
+            save_rdtrajectory(tr, tmp + "/traj", separate_data=(post == "save-load-separate"))
+            tr = load_rdtrajectory(tmp + "/traj.json")
+            note += " -> save_rdtrajectory -> load_rdtrajectory"
+        except Exception:
+            stats["provenance_save_load_raised"] += 1        # file round trips are C12's
+            return
+        finally:
+            shutil.rmtree(tmp, ignore_errors=True)
+    elif post == "deepcopy":
+        tr = copy.deepcopy(tr)
+        note += " -> copy.deepcopy"
+    nt = len(tr.t.value)
+    if len(tr.data.value) != nt * nsp * nc:
+        stats["provenance_unexpected_data_length"] += 1      # what the producer records is C09's / C16's
+        return
+    stats["provenance_trajectories_read"] += 1
+    stats["evaluations"] += 1
+    try:
+        shape = (tr.nsamples(), tr.nspecies(), tr.ncells())
+    except Exception as e:
+        shape = "%s: %s" % (type(e).__name__, e)
+    if shape != (nt, nsp, nc):
+        out.append(("C17:provenance-shape:differs-from-data-layout:%s" % suffix,
+                    "%s: (nsamples(), nspecies(), ncells()) = %r but data holds %d x %d x %d values on the caller's grid "
+                    "(system.space is a %s of size %s)" % (note, shape, nt, nsp, nc, type(tr.system.space).__name__,
+                                                           tr.system.space.size())))
+    _read_all(tr, nt, nsp, nc, space, first, out, stats, note + ":", suffix, prefix="provenance-")
+
 # ---- unknown species -------------------------------------------------------------------------------
 
 def _check_unknown(case, out, stats):
@@ -847,7 +949,8 @@ _STAT_KEYS = ("transitions", "evaluations", "near_tie", "near_tie_not_lattice_an
               "dup_any_of_equal_times", "none_expected", "exact_ties_closest", "unknown_species_rejected",
               "simulated_shape_unexpected", "history_steps_refuting_a_cache_on_policy_and_number",
               "history_steps_refuting_a_cache_on_number", "modify_steps_reflected_by_direct_indexing",
-              "modify_steps_NOT_reflected_by_direct_indexing")
+              "modify_steps_NOT_reflected_by_direct_indexing", "provenance_producer_raised",
+              "provenance_save_load_raised", "provenance_unexpected_data_length", "provenance_trajectories_read")
 
 
 def _new_stats():
@@ -876,6 +979,8 @@ def check_case(case, stats=None):
             _check_accessor_modify(case, out, stats)
         elif sub == "lookup-modify":
             _check_lookup_modify(case, out, stats)
+        elif sub == "provenance":
+            _check_provenance(case, out, stats)
         elif sub == "unknown":
             _check_unknown(case, out, stats)
         elif sub == "simulated":
@@ -1073,6 +1178,31 @@ def _spaces(tier):
                "another unit, units relabel) x 2 patterns; lookups on every current time / midpoint / outside, 2 units, "
                "3 policies after each step", gen_tmod, 4 * 4 * len(T_MODS) * len(PATTERNS), 4))
 
+    # ---- trajectory provenance
+    if tier == "thorough":
+        pengines, pgrids, pfirst = ["euler", "gillespie", "tauleap"], [[2, 2, 1], [3, 2, 1], [2, 1, 2]], FIRST_READERS
+    else:
+        pengines, pgrids, pfirst = ["euler", "gillespie"], [[2, 2, 1], [3, 2, 1]], ["get_state", "get_trajectory_point"]
+
+    def gen_prov():
+        for grid in pgrids:
+            for producer in PRODUCERS:
+                for engine in pengines:
+                    for post in POSTS:
+                        for first in pfirst:
+                            yield {"sub": "provenance", "producer": producer, "engine": engine, "grid": grid,
+                                   "post": post, "first": first}
+            for producer in CTOR_MISMATCH:
+                for post in POSTS:
+                    for first in pfirst:
+                        yield {"sub": "provenance", "producer": producer, "engine": None, "grid": grid, "post": post,
+                               "first": first}
+    sp.append(("provenance: trajectories from the real producers - simulate_script plain / cgmap identity / lumping / "
+               "lumping with a dropped cell x engines %s, and RDTrajectory built with system != script.system (graph, "
+               "transposed grid) - x grids %s x {direct, save+load (data separate / inline), deepcopy} x %d first readers; "
+               "every accessor against direct indexing on the caller's grid" % (pengines, pgrids, len(pfirst)),
+               gen_prov, len(pgrids) * (len(PRODUCERS) * len(pengines) + len(CTOR_MISMATCH)) * len(POSTS) * len(pfirst), 3))
+
     def gen_sim():
         for nsp in (1, 2, 3):
             for nc in (1, 2, 3):
@@ -1095,6 +1225,8 @@ def _nontrivial(case):
         return case["ns"] * case["nsp"] * case["nc"] > 1
     if sub == "lookup-modify":
         return case["n"] > 1
+    if sub == "provenance":
+        return case["producer"] != "plain"
     if sub == "simulated":
         return case["nsp"] * case["nc"] > 1
     return True
